@@ -402,8 +402,18 @@ impl CheckCtx {
                             inflight[w].1.store(t0.elapsed().as_millis() as u64, Ordering::SeqCst);
                             inflight[w].0.store(run + 1, Ordering::SeqCst);
                             let seed = run_seed(master, prop, S::NAME, run);
-                            let case = S::generate(seed, run, prop, tier);
-                            let out = S::execute(&case, prop);
+                            // a panic that escapes `execute` is a bug of the simulator: harness error, no verdict
+                            let out = match catch_unwind(AssertUnwindSafe(|| {
+                                let case = S::generate(seed, run, prop, tier);
+                                S::execute(&case, prop)
+                            })) {
+                                Ok(o) => o,
+                                Err(_) => {
+                                    eprintln!("HARNESS ERROR: the simulator panicked in scenario {} run {} (seed {}); no verdict", S::NAME, run, seed);
+                                    println!("HARNESS ERROR: the simulator panicked in scenario {} run {}; no verdict for {}", S::NAME, run, prop);
+                                    std::process::exit(2);
+                                }
+                            };
                             acc.done_runs += 1;
                             acc.steps += out.stats.steps;
                             for (k, v) in &out.stats.faults {
